@@ -118,12 +118,48 @@ func runC14(c *Ctx) {
 		}
 		return false
 	}
-	isPE := func(in ssa.Instruction) bool {
+	// helpers of the package that run the receive filters on behalf of receive (a refactoring may move the runs there):
+	// a helper counts as "filter run followed by processError" only if every path from its RunReceiverFilter call to its
+	// return passes processError, and it returns processError's results
+	isPEin := func(in ssa.Instruction) bool {
 		ci, ok := in.(ssa.CallInstruction)
 		return ok && (ci.Common().StaticCallee() == pe || methodName(ci.Common()) == "waitNotify")
 	}
-	filters := callsIn(recv, false, func(cc *ssa.CallCommon) bool { return methodName(cc) == "RunReceiverFilter" })
+	helperAlwaysPE := map[*ssa.Function]bool{}
+	helperRuns := map[*ssa.Function]bool{}
+	for _, h := range c.PkgFuncs(pkg) {
+		if h == recv {
+			continue
+		}
+		runs := callsIn(h, false, func(cc *ssa.CallCommon) bool { return methodName(cc) == "RunReceiverFilter" })
+		if len(runs) == 0 {
+			continue
+		}
+		helperRuns[h] = true
+		all := true
+		for _, r := range runs {
+			if existsPath(h, r.Instr, isReturn, isPEin) != nil {
+				all = false
+			}
+		}
+		helperAlwaysPE[h] = all
+	}
+	isPE := func(in ssa.Instruction) bool {
+		if isPEin(in) {
+			return true
+		}
+		ci, ok := in.(ssa.CallInstruction)
+		return ok && ci.Common().StaticCallee() != nil && helperAlwaysPE[ci.Common().StaticCallee()]
+	}
+	filters := callsIn(recv, false, func(cc *ssa.CallCommon) bool {
+		return methodName(cc) == "RunReceiverFilter" || (cc.StaticCallee() != nil && helperRuns[cc.StaticCallee()])
+	})
 	for i, f := range filters {
+		callee := f.Instr.Common().StaticCallee()
+		if callee != nil && helperRuns[callee] && helperAlwaysPE[callee] {
+			c.Pass("C14.R1", fmt.Sprintf("%s:after-filter#%d", rk, i+1), f.Instr.Pos(), "the helper consults processError after every filter run; its result is tested below")
+			continue
+		}
 		bad := existsPath(recv, f.Instr, isSend, isPE)
 		c.Check("C14.R1", fmt.Sprintf("%s:after-filter#%d", rk, i+1), f.Instr.Pos(), bad == nil, "processError is consulted before anything can be sent upstream", "after this receive-filter run an upstream send is reachable without consulting processError: a request a filter answered or terminated would still be forwarded")
 	}
